@@ -106,6 +106,11 @@ def run_one(job, out, chooser, cap):
             S.yield_(lambda: True, 'compress')
             return oldz.compress_numpy(arr, *a, **k)
     CU.Queue, CU.Thread, CU.zfpy = IQ, IT, _Zfpy()
+    # the same classes under their library names, for code that reaches them as threading.Thread / queue.Queue
+    import queue as _q
+    import threading as _th
+    old_glob = (_th.Thread, _q.Queue)
+    _th.Thread, _q.Queue = IT, IQ
     C.open = rec
     err = None
     try:
@@ -121,6 +126,7 @@ def run_one(job, out, chooser, cap):
             S.abort()
     finally:
         CU.Queue, CU.Thread, CU.zfpy = oldq, oldt, oldz
+        _th.Thread, _q.Queue = old_glob
         del C.open
     # let unwound daemon threads exit
     t0 = time.time()
